@@ -14,6 +14,8 @@ seeds="$*"; [ -n "$seeds" ] || seeds=$(ls /verif/seeded | grep -v '^_')
 miss=0
 for s in $seeds; do
   id=$(echo "$s" | cut -c1-3); p=/verif/seeded/$s/patch.diff
+  # a seed that only another property's check can see names that check in its meta.json ("regress_with")
+  alt=$(jq -r '.regress_with // empty' /verif/seeded/$s/meta.json 2>/dev/null); [ -n "$alt" ] && id=$alt
   (cd "$RW" && git apply "$p") || { echo "$s patch-does-not-apply" >> "$log"; continue; }
   (cd "$RV" && VERIF_REPO="$RW" PYTHONPATH="$RW" bin/check "$id" quick > "$RV/out/regress_$s.log" 2>&1); rc=$?
   sig=$(grep -m1 "signature" "$RV/out/regress_$s.log" | cut -c1-120)
